@@ -10,8 +10,7 @@ package main
 //   c08.header <hex>             → ply.ReadHeader result          (Lean: model header parser)
 //   c08.holds.meaning <spec> <impl result>                        (Lean: impl result = meaning f)
 // plus one witness per finding on the unchanged tree under its own op name (expected false):
-//   c08.holds.uchar_scalar_ascii_witness, c08.holds.mixed_type_group_witness, c08.holds.ascii_precision_witness,
-//   c08.holds.zero_faces_witness
+//   c08.holds.uchar_scalar_ascii_witness, c08.holds.mixed_type_group_witness, c08.holds.ascii_precision_witness
 
 import (
 	"bytes"
@@ -464,6 +463,10 @@ func (c *Ctx) plySpecGen() plySpec {
 			fe.extra = 1 + c.Rng.Intn(2)
 		}
 		nf := 1 + c.Rng.Intn(5)
+		if c.Rng.Intn(8) == 0 {
+			nf = 0 // `element face 0`: the vertices are kept
+			c.Note("face:none-declared-zero")
+		}
 		for i := 0; i < nf; i++ {
 			k := 3 + c.Rng.Intn(2)
 			fc := plySpecFace{}
@@ -519,7 +522,7 @@ func runC08(c *Ctx) {
 	c.plySpecCase(plySpec{format: "ascii", vprops: append(append([]plySpecProp{}, xyz...), plySpecProp{"id", "int", false}, plySpecProp{"w", "double", false}),
 		verts: [][]float64{{1, 2, 3, 16777217, 16777217.5}}}, "c08.holds.ascii_precision_witness")
 	c.plySpecCase(plySpec{format: "le", vprops: xyz, verts: [][]float64{{1, 2, 3}, {4, 5, 6}},
-		face: &plySpecFaceElem{cntTy: "uchar", idxTy: "int"}}, "c08.holds.zero_faces_witness")
+		face: &plySpecFaceElem{cntTy: "uchar", idxTy: "int"}}, "c08.holds.meaning") // corpus case: `element face 0` (fixed by b4c6223)
 	for k := 0; k < c.N; k++ {
 		c.plySpecCase(c.plySpecGen(), "c08.holds.meaning")
 	}
